@@ -242,7 +242,7 @@ func init() {
 	mc.Register(&mc.Check{
 		ID:    "C01",
 		Level: "exploration",
-		Rule: "E1 exhaustive: every binary expression tree with n operator nodes (all shapes) over the listed operator spellings and leaf pool (numbers incl. huge/tiny/negative/fractional, NaN/±Inf/-0 through 输入 variables, booleans, texts), each rendered with minimal braces and fully braced; real interpreter vs reference evaluator on value (bit-exact), error class and, in the traced families, operand evaluation order. Cases are distinct by construction (rank/unrank); a case is non-trivial if it has at least one operator node.",
+		Rule:  "E1 exhaustive: every binary expression tree with n operator nodes (all shapes) over the listed operator spellings and leaf pool (numbers incl. huge/tiny/negative/fractional, NaN/±Inf/-0 through 输入 variables, booleans, texts), each rendered with minimal braces and fully braced; real interpreter vs reference evaluator on value (bit-exact), error class and, in the traced families, operand evaluation order. Cases are distinct by construction (rank/unrank); a case is non-trivial if it has at least one operator node.",
 		Assumptions: []string{
 			"reference evaluator uses Go float64 arithmetic (IEEE-754), math.Floor for | and %",
 			"unbraced chains of comparisons are never generated (BNF allows, parser rejects, statement only fixes left-to-right grouping)",
@@ -269,6 +269,9 @@ func init() {
 					idx := base + k
 					if !c.Mine(idx) {
 						continue
+					}
+					if c.Tier != "thorough" && fam.name == "n2" && k%2 == 1 {
+						continue // quick: the fully braced rendering of the largest family is left to thorough
 					}
 					if k&0xFFF == 0 && c.Expired() {
 						c.Note("deadline hit in family " + fam.name)
